@@ -134,6 +134,8 @@ Reloop(mn, h, d) ==
 HypInDom(m, h) == /\ \A i \in 2..4 : InDom(m.back, m.lp, h.w[i])
                   /\ InDom(m.back, m.lp, h.q)
 
+NoCmd == [a |-> "", t |-> 0, d |-> 0, lp |-> FALSE, ls |-> 0, le |-> -1]    \* no handle call pending
+
 \* ------------------------------------------------------------ initial state
 \* c: the `reset` event
 PInit(c) ==
@@ -149,7 +151,7 @@ PInit(c) ==
              step |-> IF stepOK THEN num \div c.dev ELSE Q, f |-> 0,
              hyps |-> {}, open |-> FALSE, stopped |-> FALSE, dr |-> 0,
              cmd |-> "", age |-> 0, nearEnd |-> FALSE, prate |-> 0, arate |-> 0,
-             rneg |-> c.rq < 0, srn |-> c.sr, srd |-> c.dev]
+             rneg |-> c.rq < 0, srn |-> c.sr, srd |-> c.dev, pe |-> NoCmd]
       defined == /\ sliceOK /\ stepOK /\ LoopOK(n, lp)
                  /\ c.start >= 0
                  /\ (c.start < n \/ (c.start = 0 /\ n = 0 /\ ~c.rev))
@@ -210,24 +212,20 @@ SeeState(m, st) ==
   THEN [m EXCEPT !.stopped = TRUE, !.hyps = {h \in m.hyps : Ended(h)}]
   ELSE m
 
-Upd(m, e) ==
-  IF m.open THEN m
-  ELSE CASE e.a = "frame" ->
-         IF m.stopped THEN m
-         ELSE LET hs == {h \in m.hyps : Matches(m, h, e.v)}
-                  f1 == m.f + m.step
-                  k  == f1 \div Q
-                  r  == ShiftDr(m, hs, m.dr, k)
-              IN [m EXCEPT !.hyps = r[1], !.dr = r[2], !.f = f1 % Q, !.age = IF @ < 100 THEN @ + k ELSE @]
-    [] e.a = "begin" ->
-         LET m1 == SeeState(m, e.st)
-             m2 == IF m1.stopped THEN m1 ELSE [m1 EXCEPT !.hyps = {h \in m1.hyps : PosOK(m1, h, e.pos)}]
-         IN IF m2.prate # 0 THEN [m2 EXCEPT !.arate = m2.prate, !.prate = 0] ELSE m2
-    [] e.a = "proc" ->
-         IF m.arate = 0 THEN m
-         ELSE IF e.n = 1 THEN [m EXCEPT !.step = m.arate, !.arate = 0]
-         ELSE [m EXCEPT !.open = TRUE]
-    [] e.a = "end" -> SeeState(m, e.st)
+\* a handle call takes effect at the next on_start_processing (`begin`); until then it is pending.
+\* Later calls of the same kind replace earlier ones; calls of different kinds pending together are
+\* applied in an order the documentation does not fix (open mode).
+Norm(e) == CASE e.a = "seek_to" -> [NoCmd EXCEPT !.a = e.a, !.t = e.t]
+             [] e.a = "seek_by" -> [NoCmd EXCEPT !.a = e.a, !.d = e.d]
+             [] OTHER -> [NoCmd EXCEPT !.a = e.a, !.lp = e.lp, !.ls = e.ls, !.le = e.le]
+Stash(m, e) == IF m.stopped THEN m
+               ELSE IF m.pe.a \in {"", e.a} THEN [m EXCEPT !.pe = Norm(e)]
+               ELSE [m EXCEPT !.pe = [NoCmd EXCEPT !.a = "multi"]]
+
+ApplyCmd(m0) ==
+  LET e == m0.pe  m == [m0 EXCEPT !.pe = NoCmd] IN
+  CASE e.a = "" -> m
+    [] e.a = "multi" -> [m EXCEPT !.open = TRUE]
     [] e.a = "seek_to" ->
          IF m.stopped THEN m
          ELSE IF ~Audible(m) \/ e.t \notin Region(m) THEN [m EXCEPT !.open = TRUE]
@@ -248,6 +246,27 @@ Upd(m, e) ==
               IN IF ~LoopOK(m.n, lp) \/ (\E h \in hs : ~HypInDom(mn, h)) THEN [mn EXCEPT !.open = TRUE]
                  ELSE [mn EXCEPT !.hyps = hs, !.cmd = IF m.cmd = "seek" /\ m.age <= 8 THEN "seek" ELSE "loop",
                                  !.age = IF m.cmd = "seek" /\ m.age <= 8 THEN m.age ELSE 0]
+
+Upd(m, e) ==
+  IF m.open THEN m
+  ELSE CASE e.a = "frame" ->
+         IF m.stopped THEN m
+         ELSE LET hs == {h \in m.hyps : Matches(m, h, e.v)}
+                  f1 == m.f + m.step
+                  k  == f1 \div Q
+                  r  == ShiftDr(m, hs, m.dr, k)
+              IN [m EXCEPT !.hyps = r[1], !.dr = r[2], !.f = f1 % Q, !.age = IF @ < 100 THEN @ + k ELSE @]
+    [] e.a = "begin" ->
+         LET m1 == SeeState(m, e.st)
+             m2 == IF m1.stopped THEN m1 ELSE [m1 EXCEPT !.hyps = {h \in m1.hyps : PosOK(m1, h, e.pos)}]
+             m3 == ApplyCmd(m2)
+         IN IF m3.prate # 0 THEN [m3 EXCEPT !.arate = m3.prate, !.prate = 0] ELSE m3
+    [] e.a = "proc" ->
+         IF m.arate = 0 THEN m
+         ELSE IF e.n = 1 THEN [m EXCEPT !.step = m.arate, !.arate = 0]
+         ELSE [m EXCEPT !.open = TRUE]
+    [] e.a = "end" -> SeeState(m, e.st)
+    [] e.a \in {"seek_to", "seek_by", "set_loop"} -> Stash(m, e)
     [] e.a = "set_rate" ->
          IF e.rq = 0 \/ ((e.rq < 0) # m.rneg) \/ (Abs(e.rq) * m.srn) % m.srd # 0
             \/ (Abs(e.rq) * m.srn) \div m.srd > 4 * Q THEN [m EXCEPT !.open = TRUE]
